@@ -1761,9 +1761,20 @@ class SpaceUpdater(SharedSpaceOperations):
         for v in self._graph.ordered_subs(node):    # node comes first
             self._instructions.append(
                 Instruction(self._update_derived_space, (v,)))
+        self._update_tree_refs(node)
 
         self._instructions.execute()
         self._update_manager()
+
+    def _update_tree_refs(self, node):
+        # References of the child spaces of a re-derived space may be bound
+        # relatively through the inheritance of their parents: derive them again
+        subs = list(self._graph.ordered_subs(node))
+        for n in subs:
+            for ch in self._graph.visit_tree(n, include_self=False):
+                if ch not in subs:
+                    self._instructions.append(
+                        Instruction(self._update_derived_refs, (ch,)))
 
     def remove_bases(self, space, bases):
 
@@ -1781,6 +1792,7 @@ class SpaceUpdater(SharedSpaceOperations):
             self._instructions.append(
                 Instruction(self._update_derived_space, (v,))
             )
+        self._update_tree_refs(node)
 
         self._instructions.execute()
         self._update_manager()
